@@ -3,6 +3,7 @@
 package main
 
 import (
+	"github.com/bfenetworks/bfe/bfe_config/bfe_route_conf/route_rule_conf"
 	"net/url"
 	"strings"
 
@@ -31,11 +32,30 @@ func gen(r0 *vh.Rand) string {
 			break
 		}
 	}
+	if r.Chance(1, 3) { // batch: one tree, several lookups, compared at the end
+		var qs []string
+		for k := 3 + r.Intn(6); k > 0; k-- {
+			h, p := c1xroute.GenProbeHost(r, rs), c1xroute.GenProbePath(r, rs)
+			if strings.ContainsAny(h+p, "~|") {
+				continue
+			}
+			qs = append(qs, h+"|"+p)
+			if r.Chance(1, 4) { // the same probe again later
+				qs = append(qs, qs[r.Intn(len(qs))])
+			}
+		}
+		if len(qs) > 0 {
+			return "r=" + c1xroute.FormatRules(rs) + ";q=" + strings.Join(qs, "~")
+		}
+	}
 	return "r=" + c1xroute.FormatRules(rs) + ";h=" + c1xroute.GenProbeHost(r, rs) + ";p=" + c1xroute.GenProbePath(r, rs)
 }
 
 func exec(op string) string {
 	rtxt, ok1 := c1xroute.KV(op, "r")
+	if q, okq := c1xroute.KV(op, "q"); okq && ok1 {
+		return execBatch(rtxt, q)
+	}
 	h, ok2 := c1xroute.KV(op, "h")
 	p, ok3 := c1xroute.KV(op, "p")
 	if !(ok1 && ok2 && ok3) {
@@ -66,6 +86,62 @@ func exec(op string) string {
 		lc = "err-with-cluster:" + req.Route.ClusterName
 	}
 	return "get=" + get + ";lc=" + lc
+}
+
+// lookupOne runs the two entry points on an already loaded table.
+func lookupOne(conf *route_rule_conf.RouteTableConf, ht *bfe_route.HostTable, h, p string) string {
+	get := "miss"
+	if c, found := conf.BasicRuleTree[product].Get(h, p); found {
+		get = "hit:" + c
+	}
+	req := &bfe_basic.Request{Session: &bfe_basic.Session{},
+		HttpRequest: &bfe_http.Request{Host: h, URL: &url.URL{Path: p}}}
+	req.Route.Product = product
+	lc := "err"
+	if err := ht.LookupCluster(req); err == nil {
+		lc = "ok:" + req.Route.ClusterName
+	} else if req.Route.ClusterName != "" {
+		lc = "err-with-cluster:" + req.Route.ClusterName
+	} else if err != bfe_route.ErrNoProductRule || req.Route.Error != err {
+		lc = "err-kind"
+	}
+	return "get=" + get + ";lc=" + lc
+}
+
+// execBatch: load once, look every probe up, keep the answers, look everything up again in reverse order (with the
+// probe strings rebuilt in fresh memory), and only then compare.
+func execBatch(rtxt, q string) string {
+	rs, ok := c1xroute.ParseRules(rtxt)
+	if !ok {
+		return "bad-op"
+	}
+	conf, err := c1xroute.Load(product, true, rs, false, nil)
+	if err != nil {
+		return "err:load"
+	}
+	ht := new(bfe_route.HostTable)
+	ht.Update(host_rule_conf.HostConf{}, vip_rule_conf.VipConf{}, conf)
+	probes := strings.Split(q, "~")
+	first := make([]string, len(probes))
+	for i, pr := range probes {
+		f := strings.SplitN(pr, "|", 2)
+		if len(f) != 2 {
+			return "bad-op"
+		}
+		first[i] = lookupOne(conf, ht, f[0], f[1])
+	}
+	stable := true
+	for i := len(probes) - 1; i >= 0; i-- {
+		f := strings.SplitN(string(append([]byte(nil), probes[i]...)), "|", 2)
+		if lookupOne(conf, ht, f[0], f[1]) != first[i] {
+			stable = false
+		}
+	}
+	out := strings.Join(first, "~")
+	if !stable {
+		out += "~unstable"
+	}
+	return out
 }
 
 func init() {
